@@ -166,6 +166,7 @@ SM = "inferno/neural/synapses/mixins.py"
 LIN = "inferno/neural/connections/linear.py"
 ND = "inferno/neural/functional/dynamics.py"
 MUTANTS = [
+    dict(file="inferno/neural/network.py", func="Biclique.__init__", old='                        list(tensors.values()), "s ... -> ...", combine.lower()', new='                        torch.cat(list(tensors.values())), "s ... -> ...", combine.lower()', contracts=["Biclique[batch independence]"], name="seed C11e: connection outputs concatenated along the batch axis before the combine reduction"),
     dict(file="inferno/neural/neurons/linear.py", func="ALIF.forward", old="        if adapt or (adapt is None and self.training):", new="        if adapt or (adapt is None or self.training):", contracts=["ALIF.forward[batch independence]"], name="seed C11b: adaptation (and its batch reduction) runs although frozen with adapt=False"),
     dict(file=SM, func="CurrentMixin.current@setter", name="seed C11: history write skipped when the whole batch is silent",
          old="        self.current_.push(value, self.inplace)", new="        if value.any() or self.current.any():\n            self.current_.push(value, self.inplace)\n        else:\n            self.current_.incr()",
